@@ -93,6 +93,7 @@ type Clause struct {
 	E    SExpr
 	Src  string
 	Line int
+	Inv  bool // from an `objinv` clause: an object invariant of the callee's package (assumed, not checked, at calls from other packages)
 }
 
 type UseHint struct {
@@ -157,6 +158,7 @@ type ContractSet struct {
 	OnSends  []*OnSend
 	Opaque   []string
 	Transparent []string
+	OnlyFor   []string // onlyfor ID ...: the packs that see this file's contracts (engine.go loadEngine)
 	TypedRefs bool     // typedrefs: allocation and typed reads record the dynamic type of references (typedrefs.go)
 	InlineObj []string // inlineobj Type.field: struct-valued field modelled as a fixed sub-object (inlineobj.go)
 	Funcs   map[string]*FuncContract
@@ -167,7 +169,7 @@ func newContractSet(pkg string) *ContractSet {
 	return &ContractSet{PkgPath: pkg, Preds: map[string]*PredDef{}, Fns: map[string]*SpecFn{}, Funcs: map[string]*FuncContract{}}
 }
 
-var clauseKW = map[string]bool{"typedrefs": true, "inlineobj": true, "iterates": true, "iterloop": true, "invokes": true, "hide": true, "splitforall": true, "ghost": true, "pred": true, "fn": true, "axiom": true, "lemmadef": true, "onwrite": true, "onsend": true,
+var clauseKW = map[string]bool{"onlyfor": true, "objinv": true, "typedrefs": true, "inlineobj": true, "iterates": true, "iterloop": true, "invokes": true, "hide": true, "splitforall": true, "ghost": true, "pred": true, "fn": true, "axiom": true, "lemmadef": true, "onwrite": true, "onsend": true,
 	"opaque": true, "transparent": true, "lenient": true, "callsite": true, "func": true, "params": true, "requires": true, "ensures": true, "modifies": true, "loop": true, "use": true,
 	"inline": true, "assumed": true, "overflow": true, "safety": true, "pure": true, "effect": true, "watch": true, "trusts": true}
 
@@ -300,6 +302,9 @@ func loadContractFile(path string, prefixed bool, pkgPath string) (*ContractSet,
 		case "typedrefs":
 			cs.TypedRefs = true
 			cur = nil
+		case "onlyfor":
+			cs.OnlyFor = append(cs.OnlyFor, strings.Fields(rc.text)...)
+			cur = nil
 		case "inlineobj":
 			cs.InlineObj = append(cs.InlineObj, strings.Fields(rc.text)...)
 			cur = nil
@@ -380,7 +385,15 @@ func loadContractFile(path string, prefixed bool, pkgPath string) (*ContractSet,
 					if err != nil {
 						return nil, fmt.Errorf("%s: %v", where, err)
 					}
-					os.Requires = append(os.Requires, Clause{e, part, rc.line})
+					os.Requires = append(os.Requires, Clause{E: e, Src: part, Line: rc.line})
+				} else if strings.HasPrefix(part, "assume ") {
+					// a guard of the event (a receive happens only when something is there to receive; the default
+					// case of a select only when nothing is): assumed on the path, not an obligation
+					e, err := parseSpec(strings.TrimPrefix(part, "assume "))
+					if err != nil {
+						return nil, fmt.Errorf("%s: %v", where, err)
+					}
+					os.Requires = append(os.Requires, Clause{E: e, Src: part, Line: rc.line, Inv: true})
 				} else if part != "" {
 					upd = append(upd, part)
 				}
@@ -414,15 +427,22 @@ func loadContractFile(path string, prefixed bool, pkgPath string) (*ContractSet,
 				for _, p := range strings.Split(rc.text, ",") {
 					cur.Params = append(cur.Params, strings.TrimSpace(p))
 				}
-			case "requires", "ensures":
+			case "requires", "ensures", "objinv":
 				e, err := parseSpec(rc.text)
 				if err != nil {
 					return nil, fmt.Errorf("%s: %v", where, err)
 				}
-				cl := Clause{e, rc.text, rc.line}
-				if rc.kw == "requires" {
+				cl := Clause{E: e, Src: rc.text, Line: rc.line}
+				switch rc.kw {
+				case "requires":
 					cur.Requires = append(cur.Requires, cl)
-				} else {
+				case "ensures":
+					cur.Ensures = append(cur.Ensures, cl)
+				default:
+					// object invariant: holds on entry and exit of every function of its package; callers in
+					// other packages cannot break it (unexported state) and therefore assume it instead of proving it
+					cl.Inv = true
+					cur.Requires = append(cur.Requires, cl)
 					cur.Ensures = append(cur.Ensures, cl)
 				}
 			case "trusts":
@@ -432,7 +452,7 @@ func loadContractFile(path string, prefixed bool, pkgPath string) (*ContractSet,
 				if err != nil {
 					return nil, fmt.Errorf("%s: %v", where, err)
 				}
-				cur.Trusts = append(cur.Trusts, Clause{e, rc.text, rc.line})
+				cur.Trusts = append(cur.Trusts, Clause{E: e, Src: rc.text, Line: rc.line})
 			case "modifies":
 				cur.HasMod = true
 				for _, p := range splitTop(rc.text) {
@@ -454,7 +474,7 @@ func loadContractFile(path string, prefixed bool, pkgPath string) (*ContractSet,
 				if err != nil {
 					return nil, fmt.Errorf("%s: %v", where, err)
 				}
-				cur.LoopInv[n] = append(cur.LoopInv[n], Clause{e, src, rc.line})
+				cur.LoopInv[n] = append(cur.LoopInv[n], Clause{E: e, Src: src, Line: rc.line})
 			case "splitforall":
 				cur.SplitForall = true
 			case "hide":
@@ -491,7 +511,7 @@ func loadContractFile(path string, prefixed bool, pkgPath string) (*ContractSet,
 				if cur.IterInv == nil {
 					cur.IterInv = map[string][]Clause{}
 				}
-				cur.IterInv[callee] = append(cur.IterInv[callee], Clause{ie, src, rc.line})
+				cur.IterInv[callee] = append(cur.IterInv[callee], Clause{E: ie, Src: src, Line: rc.line})
 			case "invokes":
 				txt := rc.text
 				var init []GhostUpdate
